@@ -1,0 +1,9 @@
+//go:build verif
+
+package blockwise
+
+// VerifCacheSizes returns the number of entries of the receiving and the sending cache
+// (read-only, verification harness, build tag verif only).
+func (b *BlockWise[C]) VerifCacheSizes() (receiving, sending int) {
+	return b.receivingMessagesCache.Length(), b.sendingMessagesCache.Length()
+}
